@@ -549,6 +549,20 @@ func (ctx *context) popCompareEqualityAndPush(
 		ctx.compareNodesetsAndPush(boolCompare, litCompare, numCompare,
 			operator, op1, op2)
 
+	case isDatumSlice(op1) || isDatumSlice(op2):
+		// A multi-valued leaf-list compares existentially, each value by
+		// the rules for its type.
+		ctx.compareWorker(leafListValues(op1), leafListValues(op2),
+			func(v1, v2 Datum) bool {
+				switch {
+				case isBool(v1) || isBool(v2):
+					return boolCompare(v1, v2)
+				case isNum(v1) || isNum(v2):
+					return numCompare(v1, v2)
+				}
+				return litCompare(v1, v2)
+			})
+
 	case isBool(op1) || isBool(op2):
 		ctx.pushDatum(NewBoolDatum(boolCompare(op1, op2)))
 
@@ -589,12 +603,24 @@ func (ctx *context) popCompareRelationalAndPush(
 		ctx.compareNodesetsAndPush(boolFn, litFn, numFn,
 			operator, op1, op2)
 
+	case isDatumSlice(op1) || isDatumSlice(op2):
+		// A multi-valued leaf-list compares existentially.
+		ctx.compareWorker(leafListValues(op1), leafListValues(op2), numFn)
+
 	default:
 		// Unlike equality operators ('=' and '!='), if neither operand is a
 		// nodeset, then anything not a number is converted to a number and
 		// the comparison operation is done on the 2 numbers.
 		ctx.pushDatum(NewBoolDatum(numFn(op1, op2)))
 	}
+}
+
+// The values of a leaf-list, or the single value of any other operand.
+func leafListValues(d Datum) []Datum {
+	if isDatumSlice(d) {
+		return d.DatumSlice("leaflist")
+	}
+	return []Datum{d}
 }
 
 // Comparison (including relational operators) for a nodeset versus
